@@ -18,6 +18,10 @@ def cases(draw, tier):
     proj = draw(sgen.graphs({"p_gate": 0, "p_always": 0, "p_csum": 15, "max_leaf": 5, "max_mid": 4}))
     L = proj["layers"]
     allt = L["tops"] + L["mids"] + L["leaves"]
+    # plain files that exist but that redo has never been told about, and that no rule matches: naming one on a
+    # command line makes redo look it up (and add it) -- a write in what looks like a read-only pre-check
+    unknown = ["u%d" % i for i in range(draw(st.integers(0, 3)))]
+    proj = dict(proj, sources=list(proj["sources"]) + unknown)
     fresh = draw(st.integers(0, 99)) < 25      # the racing commands are the very first ones on the project
     n = draw(st.integers(2, 10 if tier == "quick" else 12))
     cmds = []
@@ -26,6 +30,12 @@ def cases(draw, tier):
         if k < 45:
             kind = draw(st.sampled_from(["redo", "redo-ifchange"]))
             ts = sgen._subset(draw, allt, 1, 3)
+            if draw(st.integers(0, 99)) < 35:
+                # also name existing non-generated files (the shared source, never-seen plain files): redo must
+                # leave them alone and succeed
+                extra = sgen._subset(draw, ["s0"] + unknown, 1, 2)
+                for x in extra:
+                    ts.insert(draw(st.integers(0, len(ts))), x)
             argv = [kind] + (["-j%d" % draw(st.integers(1, 4))] if kind == "redo" else []) + ts
         elif k < 65:
             argv = ["redo-ood"]
@@ -40,7 +50,11 @@ def cases(draw, tier):
     pre = []
     if not fresh:
         pre = sgen._subset(draw, allt, 1, 3)
-    return {"project": proj, "cmds": cmds, "fresh": fresh, "prebuild": pre,
+    rm = []
+    if pre and draw(st.integers(0, 99)) < 40:
+        # some produced files are removed before the race: query commands then find "generated, file gone"
+        rm = sgen._subset(draw, pre, 1, 2)
+    return {"project": proj, "cmds": cmds, "fresh": fresh, "prebuild": pre, "remove_before": rm,
             "edit_between": draw(st.integers(0, 1))}
 
 
@@ -56,6 +70,9 @@ def run_case(case, tier):
                 raise runner.Inconclusive("prebuild failed: %s" % r.text()[-300:])
             if case.get("edit_between"):
                 disk.write("s0", hist.P.source_content("s0", 1))
+            for t in case.get("remove_before", []):
+                disk.remove(t)
+                out.events["c16:produced-file-removed-before-the-race"] += 1
         disk.take_trace()
         t0 = time.time()
         for i, c in enumerate(case["cmds"]):
@@ -94,6 +111,9 @@ def run_case(case, tier):
         out.events["c16:" + ("first-ever-commands-racing" if case["fresh"] else "existing-state")] += 1
         if writers >= 2:
             out.events["c16:>=2-builds"] += 1
+        if any(a in ("s0",) or a.startswith("u") for c in case["cmds"] if c["argv"][0] in ("redo", "redo-ifchange")
+               for a in c["argv"][1:]):
+            out.events["c16:existing-non-generated-file-named-on-a-command-line"] += 1
         if writers and writers < len(procs):
             out.events["c16:queries-beside-build"] += 1
         problems = []
@@ -142,7 +162,8 @@ def run_case(case, tier):
         edges = set((byid.get(t), byid.get(sx), mode) for (t, sx, mode, dm) in deps)
         missing = []
         dof = case["project"]["dofiles"]
-        for t in sorted(set(ex) | set(case["prebuild"])):
+        # (a produced file that was removed before the race and not rebuilt is legitimately forgotten as a target)
+        for t in sorted(set(ex) | (set(case["prebuild"]) - set(case.get("remove_before", [])))):
             row = byname.get(t)
             if row is None or not row[2]:
                 missing.append("Files row for %s (%r)" % (t, row))
@@ -194,7 +215,7 @@ class Spec:
                    "(16 workers add load noise); they are not enumerated"]
 
     def cases(self, tier):
-        return 480 if tier == "quick" else 6000
+        return 320 if tier == "quick" else 6000
 
     def strategy(self, tier):
         return cases(tier)
